@@ -168,8 +168,8 @@ Step(x) ==
   ELSE Do_Return(x)
 RECURSIVE Final(_)
 Final(x) == IF x.phase = "done" THEN x ELSE Final(Step(x))
-\* number of attempts on the real writer of a fault-free render of prog (with k = 0 both WriteOk and
-\* WriteFail are enabled and CASE takes the first: no attempt fails)
+\* number of attempts on the real writer of a fault-free render of prog (as a function, k = 0 means that no
+\* attempt fails: Step takes the WriteOk branch)
 NWrites(prog) == Final(S0(prog, 0, FALSE, FALSE)).att
 
 WriteOk == En_WriteOk(s) /\ s' = Do_WriteOk(s)
